@@ -217,6 +217,7 @@ type Exec struct {
 	nextTok  uint64
 	gasPrices []sdk.DecCoin
 	oracleFee sdk.Dec
+	IsoDiff   []int // events of the full history at which tenant 1's view differs from the run without the other tenants
 	RT        *RoundtripObs
 	HashDiff  []int // events after which a second execution of the same history committed another app hash
 }
@@ -840,3 +841,117 @@ func (e *Exec) sbtBalance(tid uint64, a *big.Int) *big.Int {
 }
 
 var _ = settlementkeeper.SettlementKeeper{}
+
+// ---------- C13: the same history without the other tenants ----------
+
+// FilterForTenant keeps tenant [tid]'s transactions, every create-tenant transaction (so that ids and
+// treasury addresses are the same) and the whole environment except bank sends to other treasuries;
+// everything else the other tenants do is removed.
+func FilterForTenant(h History, tid uint64) History {
+	out := History{Genesis: h.Genesis}
+	for _, ev := range h.Events {
+		switch ev.Kind {
+		case "tx":
+			keep := true
+			for _, m := range ev.Msgs {
+				if m.Kind != "create_tenant" && m.Kind != "create_tenant_mc" && m.Tid != tid {
+					keep = false
+				}
+			}
+			if keep {
+				out.Events = append(out.Events, ev)
+			}
+		case "begin":
+			e2 := Event{Kind: "begin"}
+			for _, v := range ev.Envs {
+				if v.Kind == "bank_send" && v.To < 0 && uint64(-1-v.To) != tid {
+					continue
+				}
+				e2.Envs = append(e2.Envs, v)
+			}
+			out.Events = append(out.Events, e2)
+		default:
+			out.Events = append(out.Events, ev)
+		}
+	}
+	return out
+}
+
+func tenantView(s *Snapshot, evs []string, tid uint64) string {
+	var parts []string
+	for _, t := range s.Tenants {
+		if t.Id == tid {
+			b, _ := json.Marshal(t)
+			parts = append(parts, string(b))
+		}
+	}
+	for _, u := range s.Utxrs {
+		if u.Tid == tid {
+			b, _ := json.Marshal(u)
+			parts = append(parts, string(b))
+		}
+	}
+	tre := treasuryInt(tid).String()
+	for _, b := range s.Bals {
+		if b[0] == tre {
+			parts = append(parts, b[1]+"="+b[2])
+		}
+	}
+	for _, x := range evs {
+		p := strings.Split(x, ":")
+		if len(p) == 3 && p[1] == fmt.Sprint(tid) {
+			parts = append(parts, x)
+		}
+	}
+	return strings.Join(parts, "|")
+}
+
+// CompareTenantView aligns the two runs block by block (and tenant [tid]'s transactions in order) and returns
+// the event indices of the full history at which something observable about the tenant differs.
+func CompareTenantView(h History, obs []Obs, h2 History, obs2 []Obs, tid uint64) []int {
+	type item struct {
+		idx  int
+		view string
+	}
+	collect := func(h History, obs []Obs) (ends []item, txs []item) {
+		for i, ev := range h.Events {
+			if i >= len(obs) {
+				break
+			}
+			switch ev.Kind {
+			case "end":
+				if obs[i].Snap != nil {
+					ends = append(ends, item{i, tenantView(obs[i].Snap, obs[i].Events, tid)})
+				} else {
+					ends = append(ends, item{i, "class:" + obs[i].Class})
+				}
+			case "tx":
+				mine := false
+				for _, m := range ev.Msgs {
+					if m.Tid == tid && m.Kind != "create_tenant" && m.Kind != "create_tenant_mc" {
+						mine = true
+					}
+				}
+				if mine {
+					txs = append(txs, item{i, obs[i].Class + ":" + strings.Join(obs[i].Events, ",")})
+				}
+			}
+		}
+		return
+	}
+	e1, t1 := collect(h, obs)
+	e2, t2 := collect(h2, obs2)
+	var diff []int
+	for k := range e1 {
+		if k >= len(e2) || e1[k].view != e2[k].view {
+			diff = append(diff, e1[k].idx)
+		}
+	}
+	for k := range t1 {
+		if k >= len(t2) || t1[k].view != t2[k].view {
+			diff = append(diff, t1[k].idx)
+		}
+	}
+	sort.Ints(diff)
+	return diff
+}
